@@ -148,7 +148,7 @@ func efundScenario() *Scenario {
 func init() {
 	opt := map[Tier]Options{
 		Quick:    {Depth: 4, Budget: 150 * time.Second, ReplayEvery: 16},
-		Thorough: {Depth: 5, Budget: 25 * time.Minute, ReplayEvery: 16, MaxStates: 500000},
+		Thorough: {Depth: 5, Budget: 15 * time.Minute, ReplayEvery: 16, MaxStates: 500000},
 	}
 	Checks["C04"] = func() *Check {
 		return &Check{
